@@ -29,6 +29,8 @@ func main() {
 		rep = suiteMatchDoc(*tier, *seed, *model)
 	case "C07":
 		rep = suiteReuse(*tier, *seed, *model)
+	case "C08":
+		rep = suiteConc(*tier, *seed, *model)
 	case "C18":
 		rep = suiteConvert(*tier, *seed, *model)
 	case "C19":
